@@ -9,19 +9,6 @@ Open Scope N_scope.
 Notation keys := (map fst).
 
 (* ------------------------------------------------------------------ well-formed values *)
-(* what every Value built through the API satisfies: object keys are distinct (ascending in the default
-   configuration) at every depth, floats are finite (Number::from_f64 refuses NaN and infinities) *)
-Definition keys_ok (po : bool) (ks : list bytes) : Prop := if po then NoDup ks else ascending ks.
-
-Fixpoint wfv (po : bool) (v : value) : Prop :=
-  match v with
-  | VNum (NFloat f) => is_finite f = true
-  | VArr l => (fix all (l : list value) : Prop := match l with [] => True | x :: r => wfv po x /\ all r end) l
-  | VObj m => keys_ok po (keys m) /\
-              (fix all (m : list (bytes * value)) : Prop := match m with [] => True | (_, x) :: r => wfv po x /\ all r end) m
-  | _ => True
-  end.
-
 Lemma wfv_arr : forall po l, wfv po (VArr l) <-> Forall (wfv po) l.
 Proof.
   intros po l. cbn [wfv]. induction l as [|x l IH].
@@ -163,12 +150,421 @@ Proof.
   - apply (Beqb_trans_true f f' f''); assumption.
   - apply beq_bytes_true_iff in H1. apply beq_bytes_true_iff in H2. apply beq_bytes_true_iff. congruence.
 Qed.
+Lemma bits_finite_irrel : forall s m e p p',
+  bits_of_b64 (B754_finite s m e p) = bits_of_b64 (B754_finite s m e p').
+Proof. intros. unfold bits_of_b64. reflexivity. Qed.
+Lemma Beqb_finite_zero : forall s m e p, Beqb (B754_finite s m e p : b64) (B754_zero false) = false.
+Proof. intros. unfold Beqb, SpecFloat.SFeqb. cbn. destruct s; reflexivity. Qed.
 (* src/number.rs: equal numbers make the same Hasher calls (in particular +0.0 and -0.0) *)
 Lemma num_eq_hash : forall a b, num_eq a b = true -> hash_num a = hash_num b.
 Proof.
-  intros [x|z|f|s] [x'|z'|f'|s'] H; cbn in *; try discriminate.
+  intros [x|z|f|s] [x'|z'|f'|s'] H; cbn [num_eq hash_num] in *; try discriminate.
   - apply N.eqb_eq in H. congruence.
   - apply Z.eqb_eq in H. congruence.
-  - destruct (Beqb_true_cases f f' H) as [[t [t' [-> ->]]]|[[t [-> ->]]|[t [m [e [p [p' [-> ->]]]]]]]]; reflexivity.
+  - destruct (Beqb_true_cases f f' H) as [[t [t' [-> ->]]]|[[t [-> ->]]|[t [m [e [p [p' [-> ->]]]]]]]].
+    + reflexivity.
+    + reflexivity.
+    + rewrite !Beqb_finite_zero. rewrite (bits_finite_irrel t m e p p'). reflexivity.
   - apply beq_bytes_true_iff in H. congruence.
 Qed.
+
+(* ------------------------------------------------------------------ facts about the loops *)
+Lemma all2_length : forall A B (f : A -> B -> bool) la lb, all2 f la lb = true -> length la = length lb.
+Proof.
+  induction la as [|x la IH]; intros [|y lb] H; cbn in *; try discriminate; auto.
+  apply andb_true_iff in H. destruct H as [_ H]. f_equal. apply IH. exact H.
+Qed.
+Lemma all2_flip : forall A B (f : A -> B -> bool) (g : B -> A -> bool) la lb,
+  (forall x y, In x la -> In y lb -> f x y = true -> g y x = true) -> all2 f la lb = true -> all2 g lb la = true.
+Proof.
+  induction la as [|x la IH]; intros [|y lb] F H; cbn in *; try discriminate; auto.
+  apply andb_true_iff in H. destruct H as [H1 H2]. apply andb_true_iff. split.
+  - apply F; auto.
+  - apply IH; auto; intros x' y' Hx Hy; apply F; auto.
+Qed.
+Lemma all2_trans : forall A B C (f : A -> B -> bool) (g : B -> C -> bool) (h : A -> C -> bool) la lb lc,
+  (forall x y z, In x la -> In y lb -> In z lc -> f x y = true -> g y z = true -> h x z = true) ->
+  all2 f la lb = true -> all2 g lb lc = true -> all2 h la lc = true.
+Proof.
+  induction la as [|x la IH]; intros [|y lb] [|z lc] F H1 H2; cbn in *; try discriminate; auto.
+  apply andb_true_iff in H1. destruct H1 as [H1 H1']. apply andb_true_iff in H2. destruct H2 as [H2 H2'].
+  apply andb_true_iff. split.
+  - eapply F; eauto.
+  - eapply IH; eauto; intros x' y' z' Hx Hy Hz; apply F; auto.
+Qed.
+Lemma all2_map_eq : forall A B C (f : A -> B -> bool) (h : A -> C) (h' : B -> C) la lb,
+  (forall x y, In x la -> In y lb -> f x y = true -> h x = h' y) -> all2 f la lb = true -> map h la = map h' lb.
+Proof.
+  induction la as [|x la IH]; intros [|y lb] F H; cbn in *; try discriminate; auto.
+  apply andb_true_iff in H. destruct H as [H1 H2]. f_equal.
+  - apply F; auto.
+  - apply IH; auto; intros x' y' Hx Hy; apply F; auto.
+Qed.
+Lemma all2_refl : forall A (f : A -> A -> bool) l, (forall x, In x l -> f x x = true) -> all2 f l l = true.
+Proof.
+  induction l as [|x l IH]; intro F; cbn; auto. apply andb_true_iff. split.
+  - apply F. left. reflexivity.
+  - apply IH. intros y Hy. apply F. right. exact Hy.
+Qed.
+
+(* IndexMap ==, spelled out *)
+Lemma veq_obj_po_true : forall ma mb,
+  veq true (VObj ma) (VObj mb) = true <->
+  length ma = length mb /\ forall k v, In (k, v) ma -> exists w, dict_get k mb = Some w /\ veq true v w = true.
+Proof.
+  intros ma mb. rewrite veq_obj_po, andb_true_iff, Nat.eqb_eq, forallb_forall. apply and_iff_compat_l. split.
+  - intros H k v Hin. specialize (H (k, v) Hin). unfold found_eq in H. cbn [fst snd] in H.
+    destruct (dict_get k mb) as [w|]; [|discriminate]. exists w. auto.
+  - intros H [k v] Hin. destruct (H k v Hin) as [w [G E]]. unfold found_eq. cbn [fst snd]. rewrite G. exact E.
+Qed.
+Lemma obj_po_keys_incl : forall ma mb, veq true (VObj ma) (VObj mb) = true -> incl (keys ma) (keys mb).
+Proof.
+  intros ma mb H k Hk. apply veq_obj_po_true in H. destruct H as [_ H].
+  apply in_map_iff in Hk. destruct Hk as [[k' v] [E Hin]]. cbn in E. subst k'.
+  destruct (H k v Hin) as [w [G _]]. apply dict_get_In in G. apply (in_map fst) in G. exact G.
+Qed.
+Lemma obj_po_keys_incl_rev : forall ma mb, NoDup (keys ma) -> veq true (VObj ma) (VObj mb) = true -> incl (keys mb) (keys ma).
+Proof.
+  intros ma mb ND H. apply NoDup_length_incl; auto.
+  - rewrite !map_length. apply veq_obj_po_true in H. destruct H as [L _]. lia.
+  - apply obj_po_keys_incl. exact H.
+Qed.
+
+(* ------------------------------------------------------------------ == is an equivalence on well-formed values *)
+Lemma wfv_num_po : forall po n, wfv po (VNum n) -> wfv true (VNum n).
+Proof. intros po n H. exact H. Qed.
+
+Theorem veq_refl : forall po v, wfv po v -> veq po v v = true.
+Proof.
+  intros po v. induction v as [|b|n|s|l IH|m IH] using value_ind2; intro W.
+  - reflexivity.
+  - destruct b; reflexivity.
+  - cbn [veq]. apply num_eq_refl. exact W.
+  - cbn [veq]. apply beq_bytes_refl.
+  - rewrite veq_arr. apply wfv_arr in W. apply all2_refl. intros x Hx. rewrite Forall_forall in IH, W. auto.
+  - apply wfv_obj in W. destruct W as [KO WF]. rewrite Forall_forall in IH, WF. destruct po.
+    + apply veq_obj_po_true. split; auto. intros k v Hin. exists v. split.
+      * apply In_dict_get; auto.
+      * apply (IH (k, v) Hin). apply (WF (k, v) Hin).
+    + rewrite veq_obj_def, Nat.eqb_refl. cbn [andb]. apply all2_refl. intros [k v] Hin. unfold ent_eq. cbn [fst snd].
+      rewrite beq_bytes_refl. cbn [andb]. apply (IH (k, v) Hin). apply (WF (k, v) Hin).
+Qed.
+
+Lemma veq_sym_true : forall po a b, wfv po a -> wfv po b -> veq po a b = true -> veq po b a = true.
+Proof.
+  intros po a. induction a as [|x|n|s|la IH|ma IH] using value_ind2; intros b Wa Wb H;
+    destruct b as [|y|n'|s'|lb|mb]; cbn [veq] in H; try discriminate.
+  - reflexivity.
+  - cbn [veq]. destruct x, y; auto.
+  - cbn [veq]. apply num_eq_sym_true; auto.
+  - cbn [veq]. rewrite beq_bytes_sym. exact H.
+  - change (veq po (VArr la) (VArr lb) = true) in H. rewrite veq_arr in *. apply wfv_arr in Wa. apply wfv_arr in Wb.
+    rewrite Forall_forall in IH, Wa, Wb. eapply all2_flip; [|exact H]. intros x y Hx Hy E. apply IH; auto.
+  - change (veq po (VObj ma) (VObj mb) = true) in H. apply wfv_obj in Wa. apply wfv_obj in Wb.
+    destruct Wa as [KOa WFa]. destruct Wb as [KOb WFb]. rewrite Forall_forall in IH, WFa, WFb. destruct po.
+    + pose proof (obj_po_keys_incl_rev ma mb KOa H) as Inc. apply veq_obj_po_true in H. destruct H as [L H].
+      apply veq_obj_po_true. split; auto. intros k w Hin.
+      assert (Hk : In k (keys ma)) by (apply Inc; apply (in_map fst) in Hin; exact Hin).
+      apply in_map_iff in Hk. destruct Hk as [[k' v] [E Hv]]. cbn in E. subst k'.
+      exists v. split; [apply In_dict_get; auto|].
+      destruct (H k v Hv) as [w' [G E]]. rewrite (In_dict_get _ k w mb KOb Hin) in G. inversion G; subst w'.
+      apply (IH (k, v) Hv w); [apply (WFa (k, v) Hv)|apply (WFb (k, w) Hin)|exact E].
+    + rewrite veq_obj_def in *. apply andb_true_iff in H. destruct H as [L H]. apply andb_true_iff. split.
+      * rewrite Nat.eqb_sym. exact L.
+      * eapply all2_flip; [|exact H]. intros [k v] [k' w] Hx Hy E. unfold ent_eq in *. cbn [fst snd] in *.
+        apply andb_true_iff in E. destruct E as [E1 E2]. apply andb_true_iff. split; [rewrite beq_bytes_sym; exact E1|].
+        apply (IH (k, v) Hx w); [apply (WFa (k, v) Hx)|apply (WFb (k', w) Hy)|exact E2].
+Qed.
+
+Lemma veq_trans_true : forall po a b c, wfv po a -> wfv po b -> wfv po c ->
+  veq po a b = true -> veq po b c = true -> veq po a c = true.
+Proof.
+  intros po a. induction a as [|x|n|s|la IH|ma IH] using value_ind2; intros b c Wa Wb Wc H1 H2;
+    destruct b as [|y|n'|s'|lb|mb]; cbn [veq] in H1; try discriminate;
+    destruct c as [|z|n''|s''|lc|mc]; cbn [veq] in H2; try discriminate.
+  - reflexivity.
+  - cbn [veq]. destruct x, y, z; auto.
+  - cbn [veq]. eapply num_eq_trans_true; [| | |exact H1|exact H2]; auto.
+  - cbn [veq]. apply beq_bytes_true_iff in H1. apply beq_bytes_true_iff in H2. apply beq_bytes_true_iff. congruence.
+  - change (veq po (VArr la) (VArr lb) = true) in H1. change (veq po (VArr lb) (VArr lc) = true) in H2. rewrite veq_arr in *.
+    apply wfv_arr in Wa. apply wfv_arr in Wb. apply wfv_arr in Wc. rewrite Forall_forall in IH, Wa, Wb, Wc.
+    eapply all2_trans; [|exact H1|exact H2]. intros x y z Hx Hy Hz E1 E2. apply (IH x Hx y z); auto.
+  - change (veq po (VObj ma) (VObj mb) = true) in H1. change (veq po (VObj mb) (VObj mc) = true) in H2.
+    apply wfv_obj in Wa. apply wfv_obj in Wb. apply wfv_obj in Wc.
+    destruct Wa as [KOa WFa]. destruct Wb as [KOb WFb]. destruct Wc as [KOc WFc]. rewrite Forall_forall in IH, WFa, WFb, WFc.
+    destruct po.
+    + apply veq_obj_po_true in H1. destruct H1 as [L1 H1]. apply veq_obj_po_true in H2. destruct H2 as [L2 H2].
+      apply veq_obj_po_true. split; [congruence|]. intros k v Hin.
+      destruct (H1 k v Hin) as [w [G1 E1]]. pose proof (dict_get_In _ _ _ _ G1) as Hw.
+      destruct (H2 k w Hw) as [u [G2 E2]]. pose proof (dict_get_In _ _ _ _ G2) as Hu.
+      exists u. split; auto. apply (IH (k, v) Hin w u); [| | |exact E1|exact E2].
+      * apply (WFa (k, v) Hin). * apply (WFb (k, w) Hw). * apply (WFc (k, u) Hu).
+    + rewrite veq_obj_def in *. apply andb_true_iff in H1. destruct H1 as [L1 H1]. apply andb_true_iff in H2. destruct H2 as [L2 H2].
+      apply andb_true_iff. split.
+      * apply Nat.eqb_eq in L1. apply Nat.eqb_eq in L2. apply Nat.eqb_eq. congruence.
+      * eapply all2_trans; [|exact H1|exact H2]. intros [k v] [k' w] [k'' u] Hx Hy Hz E1 E2. unfold ent_eq in *. cbn [fst snd] in *.
+        apply andb_true_iff in E1. destruct E1 as [E1 E1']. apply andb_true_iff in E2. destruct E2 as [E2 E2'].
+        apply andb_true_iff. split.
+        -- apply beq_bytes_true_iff in E1. apply beq_bytes_true_iff in E2. apply beq_bytes_true_iff. congruence.
+        -- apply (IH (k, v) Hx w u); [| | |exact E1'|exact E2'].
+           ++ apply (WFa (k, v) Hx). ++ apply (WFb (k', w) Hy). ++ apply (WFc (k'', u) Hz).
+Qed.
+
+Theorem veq_sym : forall po a b, wfv po a -> wfv po b -> veq po a b = veq po b a.
+Proof.
+  intros po a b Wa Wb. destruct (veq po a b) eqn:E1; destruct (veq po b a) eqn:E2; auto.
+  - apply veq_sym_true in E1; auto. congruence.
+  - apply veq_sym_true in E2; auto. congruence.
+Qed.
+
+(* ------------------------------------------------------------------ hashing is consistent with == *)
+(* arranging by key and rewriting the non-key component commute *)
+Lemma sort_ins_map : forall A B (g : bytes * A -> bytes * B), (forall x, fst (g x) = fst x) ->
+  forall kv l, sort_ins (g kv) (map g l) = map g (sort_ins kv l).
+Proof.
+  intros A B g Hg kv. induction l as [|x l IH]; cbn [map sort_ins]; auto.
+  rewrite !Hg. destruct (bytes_ltb (fst x) (fst kv)); cbn [map]; [rewrite IH|]; reflexivity.
+Qed.
+Lemma sort_by_key_map : forall A B (g : bytes * A -> bytes * B), (forall x, fst (g x) = fst x) ->
+  forall l, sort_by_key (map g l) = map g (sort_by_key l).
+Proof.
+  intros A B g Hg. unfold sort_by_key. induction l as [|x l IH]; cbn [map fold_right]; auto.
+  rewrite IH. apply sort_ins_map. exact Hg.
+Qed.
+Lemma per_entry_sort : forall po m, sort_by_key (per_entry po m) = per_entry po (sort_by_key m).
+Proof. intros. unfold per_entry. apply sort_by_key_map. reflexivity. Qed.
+
+Lemma per_entry_eq : forall po sa sb, keys sa = keys sb ->
+  (forall k v w, In (k, v) sa -> In (k, w) sb -> hash_feed po v = hash_feed po w) ->
+  per_entry po sa = per_entry po sb.
+Proof.
+  intros po. unfold per_entry. induction sa as [|[k v] sa IH]; intros [|[k' w] sb] K F; cbn [map fst snd] in *; try discriminate; auto.
+  inversion K; subst. f_equal.
+  - rewrite (F k' v w); [reflexivity|left; reflexivity|left; reflexivity].
+  - apply IH; [assumption|]. intros k v0 w0 Hv Hw. apply (F k); right; assumption.
+Qed.
+
+Lemma keys_sorted_eq : forall ma mb : list (bytes * value), NoDup (keys ma) -> NoDup (keys mb) ->
+  incl (keys ma) (keys mb) -> incl (keys mb) (keys ma) -> keys (sort_by_key ma) = keys (sort_by_key mb).
+Proof.
+  intros ma mb Na Nb I1 I2. rewrite !keys_sort_by_key. apply ascending_ext; try (apply ascending_ord_sort; assumption).
+  intro x. split; intro Hx.
+  - eapply Permutation_in; [apply Permutation_sym, ord_sort_perm|]. apply I1. eapply Permutation_in; [apply ord_sort_perm|exact Hx].
+  - eapply Permutation_in; [apply Permutation_sym, ord_sort_perm|]. apply I2. eapply Permutation_in; [apply ord_sort_perm|exact Hx].
+Qed.
+
+Theorem veq_hash : forall po a b, wfv po a -> wfv po b -> veq po a b = true -> hash_feed po a = hash_feed po b.
+Proof.
+  intros po a. induction a as [|x|n|s|la IH|ma IH] using value_ind2; intros b Wa Wb H;
+    destruct b as [|y|n'|s'|lb|mb]; cbn [veq] in H; try discriminate.
+  - reflexivity.
+  - destruct x, y; try discriminate; reflexivity.
+  - cbn [hash_feed]. f_equal. apply num_eq_hash. exact H.
+  - apply beq_bytes_true_iff in H. subst. reflexivity.
+  - change (veq po (VArr la) (VArr lb) = true) in H. rewrite veq_arr in H. rewrite !hash_arr.
+    apply wfv_arr in Wa. apply wfv_arr in Wb. rewrite Forall_forall in IH, Wa, Wb.
+    rewrite (all2_length _ _ _ _ _ H). do 2 f_equal. rewrite !flat_map_concat_map. f_equal.
+    eapply all2_map_eq; [|exact H]. intros x y Hx Hy E. apply IH; auto.
+  - change (veq po (VObj ma) (VObj mb) = true) in H. rewrite !hash_obj.
+    apply wfv_obj in Wa. apply wfv_obj in Wb. destruct Wa as [KOa WFa]. destruct Wb as [KOb WFb].
+    rewrite Forall_forall in IH, WFa, WFb. destruct po.
+    + pose proof (obj_po_keys_incl ma mb H) as I1. pose proof (obj_po_keys_incl_rev ma mb KOa H) as I2.
+      apply veq_obj_po_true in H. destruct H as [L H]. rewrite L. do 2 f_equal.
+      rewrite !per_entry_sort. do 2 f_equal. apply per_entry_eq.
+      * apply keys_sorted_eq; assumption.
+      * intros k v w Hv Hw.
+        assert (Hv' : In (k, v) ma) by (eapply Permutation_in; [apply sort_by_key_perm|exact Hv]).
+        assert (Hw' : In (k, w) mb) by (eapply Permutation_in; [apply sort_by_key_perm|exact Hw]).
+        destruct (H k v Hv') as [w' [G E]]. rewrite (In_dict_get _ k w mb KOb Hw') in G. inversion G; subst w'.
+        apply (IH (k, v) Hv' w); [apply (WFa (k, v) Hv')|apply (WFb (k, w) Hw')|exact E].
+    + rewrite veq_obj_def in H. apply andb_true_iff in H. destruct H as [L H]. apply Nat.eqb_eq in L. rewrite L.
+      do 4 f_equal. unfold per_entry. eapply all2_map_eq; [|exact H]. intros [k v] [k' w] Hx Hy E.
+      unfold ent_eq in E. cbn [fst snd] in *. apply andb_true_iff in E. destruct E as [E1 E2].
+      apply beq_bytes_true_iff in E1. subst k'. f_equal. f_equal.
+      apply (IH (k, v) Hx w); [apply (WFa (k, v) Hx)|apply (WFb (k, w) Hy)|exact E2].
+Qed.
+
+(* ------------------------------------------------------------------ == ignores entry order at every depth *)
+Lemma vperm_arr : forall la lb, vperm (VArr la) (VArr lb) <-> Forall2 vperm la lb.
+Proof.
+  intros la. cbn [vperm]. induction la as [|x la IH]; intros [|y lb].
+  - split; intro H; constructor.
+  - split; intro H; [contradiction|inversion H].
+  - split; intro H; [contradiction|inversion H].
+  - split; intro H.
+    + destruct H as [H1 H2]. constructor; [exact H1|apply IH; exact H2].
+    + inversion H; subst. split; [assumption|apply IH; assumption].
+Qed.
+Definition ent_perm (x y : bytes * value) : Prop := fst x = fst y /\ vperm (snd x) (snd y).
+Lemma vperm_obj : forall ma mb, vperm (VObj ma) (VObj mb) <-> exists mb', Permutation mb' mb /\ Forall2 ent_perm ma mb'.
+Proof.
+  intros ma mb. cbn [vperm].
+  assert (E : forall ma mb', (fix go (ma mb' : list (bytes * value)) {struct ma} : Prop :=
+         match ma, mb' with
+         | [], [] => True
+         | (k, x) :: ma', (k', y) :: r => k = k' /\ vperm x y /\ go ma' r
+         | _, _ => False
+         end) ma mb' <-> Forall2 ent_perm ma mb').
+  { induction ma0 as [|[k x] ma0 IH]; intros [|[k' y] r].
+    - split; intro H; constructor.
+    - split; intro H; [contradiction|inversion H].
+    - split; intro H; [contradiction|inversion H].
+    - split; intro H.
+      + destruct H as [H1 [H2 H3]]. constructor; [split; assumption|apply IH; exact H3].
+      + inversion H as [|? ? ? ? [H1 H2] H3]; subst. cbn [fst snd] in H1, H2.
+        split; [assumption|]. split; [assumption|apply IH; assumption]. }
+  split; intros [mb' [P H]]; exists mb'; split; auto; apply E; exact H.
+Qed.
+
+Lemma Forall2_In_l : forall A B (R : A -> B -> Prop) la lb x, Forall2 R la lb -> In x la -> exists y, In y lb /\ R x y.
+Proof.
+  intros A B R la lb x H. induction H as [|a b la lb Hab H IH]; intro Hin; [contradiction|].
+  destruct Hin as [->|Hin]; [exists b; split; [left; reflexivity|exact Hab]|].
+  destruct (IH Hin) as [y [Hy Hr]]. exists y. split; [right; exact Hy|exact Hr].
+Qed.
+Lemma Forall2_length' : forall A B (R : A -> B -> Prop) la lb, Forall2 R la lb -> length la = length lb.
+Proof. intros A B R la lb H. induction H; cbn; auto. Qed.
+
+(* C17_eq_order_free *)
+Theorem vperm_veq : forall a b, wfv true a -> wfv true b -> vperm a b -> veq true a b = true.
+Proof.
+  intro a. induction a as [|x|n|s|la IH|ma IH] using value_ind2; intros b Wa Wb P.
+  - cbn in P. subst. reflexivity.
+  - cbn in P. subst. apply veq_refl. exact Wa.
+  - cbn in P. subst. apply veq_refl. exact Wa.
+  - cbn in P. subst. apply veq_refl. exact Wa.
+  - destruct b as [| | | |lb|]; try (cbn in P; contradiction). apply vperm_arr in P. rewrite veq_arr.
+    apply wfv_arr in Wa. apply wfv_arr in Wb. revert IH Wa Wb. induction P as [|x y la lb Hxy P IHP]; intros IH Wa Wb; [reflexivity|].
+    inversion IH; subst. inversion Wa; subst. inversion Wb; subst. cbn [all2]. apply andb_true_iff. split; auto.
+  - destruct b as [| | | | |mb]; try (cbn in P; contradiction). apply vperm_obj in P. destruct P as [mb' [Pm F]].
+    apply wfv_obj in Wa. apply wfv_obj in Wb. destruct Wa as [KOa WFa]. destruct Wb as [KOb WFb].
+    rewrite Forall_forall in IH, WFa, WFb. apply veq_obj_po_true. split.
+    + rewrite (Forall2_length' _ _ _ _ _ F). apply Permutation_length. exact Pm.
+    + intros k v Hin. destruct (Forall2_In_l _ _ _ _ _ _ F Hin) as [[k' w] [Hw [E1 E2]]]. cbn [fst snd] in *. subst k'.
+      assert (Hw' : In (k, w) mb) by (eapply Permutation_in; [exact Pm|exact Hw]).
+      exists w. split; [apply In_dict_get; auto|]. apply (IH (k, v) Hin w); [apply (WFa (k, v) Hin)|apply (WFb (k, w) Hw')|exact E2].
+Qed.
+
+(* written differently, compared alike: replacing a value by a reordered spelling never changes the outcome of == *)
+Corollary eq_order_free : forall a a' b, wfv true a -> wfv true a' -> wfv true b -> vperm a a' ->
+  veq true a b = veq true a' b /\ veq true b a = veq true b a'.
+Proof.
+  intros a a' b Wa Wa' Wb P. pose proof (vperm_veq a a' Wa Wa' P) as E.
+  assert (E' : veq true a' a = true) by (rewrite veq_sym; auto).
+  assert (X : veq true a b = veq true a' b).
+  { destruct (veq true a b) eqn:E1; destruct (veq true a' b) eqn:E2; auto.
+    - rewrite (veq_trans_true true a' a b) in E2; auto.
+    - rewrite (veq_trans_true true a a' b) in E1; auto. }
+  split; [exact X|]. rewrite (veq_sym true b a), (veq_sym true b a'); auto.
+Qed.
+(* top level: a Map compared with any permutation of its entries *)
+Lemma vperm_refl : forall a, vperm a a.
+Proof.
+  induction a as [|x|n|s|la IH|ma IH] using value_ind2; try reflexivity.
+  - apply vperm_arr. induction IH; constructor; auto.
+  - apply vperm_obj. exists ma. split; auto. induction IH as [|[k x] ma H IH' IH2]; constructor; auto. split; auto.
+Qed.
+Corollary permuted_entries_equal : forall m m', wfv true (VObj m) -> Permutation m m' -> veq true (VObj m) (VObj m') = true.
+Proof.
+  intros m m' W P. assert (W' : wfv true (VObj m')).
+  { apply wfv_obj in W. destruct W as [K F]. apply wfv_obj. split.
+    - eapply Permutation_NoDup; [apply Permutation_map; exact P|exact K].
+    - eapply Permutation_Forall; eauto. }
+  apply vperm_veq; auto. apply vperm_obj. exists m. split; auto.
+  clear. induction m as [|[k x] m IH]; constructor; auto. split; [reflexivity|apply vperm_refl].
+Qed.
+
+(* ------------------------------------------------------------------ sort_all_objects *)
+Lemma all_sorted_arr : forall l, all_sorted (VArr l) <-> Forall all_sorted l.
+Proof.
+  intro l. cbn [all_sorted]. induction l as [|x l IH].
+  - split; constructor.
+  - split; intro H.
+    + destruct H as [H1 H2]. constructor; [exact H1|apply IH; exact H2].
+    + inversion H; subst. split; [assumption|apply IH; assumption].
+Qed.
+Lemma all_sorted_obj : forall m, all_sorted (VObj m) <-> ascending (keys m) /\ Forall (fun kv => all_sorted (snd kv)) m.
+Proof.
+  intro m. cbn [all_sorted]. apply and_iff_compat_l. induction m as [|[k x] m IH].
+  - split; constructor.
+  - split; intro H.
+    + destruct H as [H1 H2]. constructor; [exact H1|apply IH; exact H2].
+    + inversion H; subst. split; [assumption|apply IH; assumption].
+Qed.
+Lemma wfv_def_all_sorted : forall v, wfv false v -> all_sorted v.
+Proof.
+  induction v as [|x|n|s|l IH|m IH] using value_ind2; intro W; try exact I.
+  - apply wfv_arr in W. apply all_sorted_arr. rewrite Forall_forall in *. auto.
+  - apply wfv_obj in W. destruct W as [K F]. apply all_sorted_obj. split; [exact K|]. rewrite Forall_forall in *. auto.
+Qed.
+Lemma keys_map_vals : forall f m, keys (map_vals f m) = keys m.
+Proof. intros. unfold map_vals. rewrite map_map. reflexivity. Qed.
+Lemma sort_all_arr : forall l, sort_all (VArr l) = VArr (map sort_all l).
+Proof. reflexivity. Qed.
+
+Theorem sort_all_spec : forall v, wfv true v ->
+  all_sorted (sort_all v) /\ wfv true (sort_all v) /\ veq true (sort_all v) v = true.
+Proof.
+  induction v as [|x|n|s|l IH|m IH] using value_ind2; intro W.
+  - cbn. auto.
+  - cbn [sort_all]. split; [exact I|]. split; [exact I|]. apply veq_refl. exact I.
+  - cbn [sort_all]. split; [exact I|]. split; [exact W|]. apply veq_refl. exact W.
+  - cbn [sort_all]. split; [exact I|]. split; [exact I|]. apply veq_refl. exact I.
+  - rewrite sort_all_arr. apply wfv_arr in W. rewrite Forall_forall in IH, W. split; [|split].
+    + apply all_sorted_arr. apply Forall_forall. intros y Hy. apply in_map_iff in Hy. destruct Hy as [x [<- Hx]]. apply IH; auto.
+    + apply wfv_arr. apply Forall_forall. intros y Hy. apply in_map_iff in Hy. destruct Hy as [x [<- Hx]]. apply IH; auto.
+    + rewrite veq_arr. assert (G : forall x, In x l -> veq true (sort_all x) x = true) by (intros x Hx; apply IH; auto).
+      clear IH W. induction l as [|x l IHl]; [reflexivity|]. cbn [map all2]. apply andb_true_iff. split.
+      * apply G. left. reflexivity.
+      * apply IHl. intros y Hy. apply G. right. exact Hy.
+  - rewrite sort_all_obj. apply wfv_obj in W. destruct W as [K F]. cbn [keys_ok] in K. rewrite Forall_forall in IH, F.
+    assert (P : Permutation (sort_by_key (map_vals sort_all m)) (map_vals sort_all m)) by apply sort_by_key_perm.
+    assert (KS : keys (sort_by_key (map_vals sort_all m)) = ord_sort (keys m)) by (rewrite keys_sort_by_key, keys_map_vals; reflexivity).
+    assert (In' : forall k y, In (k, y) (sort_by_key (map_vals sort_all m)) -> exists x, In (k, x) m /\ y = sort_all x).
+    { intros k y Hy. eapply Permutation_in in Hy; [|exact P]. unfold map_vals in Hy. apply in_map_iff in Hy.
+      destruct Hy as [[k' x] [E Hx]]. cbn [fst snd] in E. inversion E; subst. exists x. auto. }
+    split; [|split].
+    + apply all_sorted_obj. split.
+      * rewrite KS. apply ascending_ord_sort. exact K.
+      * apply Forall_forall. intros [k y] Hy. cbn [snd]. destruct (In' k y Hy) as [x [Hx ->]].
+        apply (IH (k, x) Hx). apply (F (k, x) Hx).
+    + apply wfv_obj. split.
+      * cbn [keys_ok]. rewrite KS. eapply Permutation_NoDup; [apply Permutation_sym, ord_sort_perm|exact K].
+      * apply Forall_forall. intros [k y] Hy. cbn [snd]. destruct (In' k y Hy) as [x [Hx ->]].
+        apply (IH (k, x) Hx). apply (F (k, x) Hx).
+    + apply veq_obj_po_true. split.
+      * rewrite (Permutation_length P). unfold map_vals. apply map_length.
+      * intros k y Hy. destruct (In' k y Hy) as [x [Hx ->]]. exists x. split; [apply In_dict_get; auto|].
+        apply (IH (k, x) Hx). apply (F (k, x) Hx).
+Qed.
+
+(* C17_sort_all, both configurations (without preserve_order the method does nothing and every Map is sorted already) *)
+Theorem sort_all_objects_spec : forall po v, wfv po v ->
+  all_sorted (sort_all_objects po v) /\ veq po (sort_all_objects po v) v = true.
+Proof.
+  intros po v W. unfold sort_all_objects. destruct po.
+  - destruct (sort_all_spec v W) as [H1 [_ H3]]. split; assumption.
+  - split; [apply wfv_def_all_sorted; exact W|apply veq_refl; exact W].
+Qed.
+(* sorting is a reordering in the sense of [vperm] *)
+Theorem sort_all_vperm : forall v, vperm v (sort_all v).
+Proof.
+  induction v as [|x|n|s|l IH|m IH] using value_ind2; try reflexivity.
+  - rewrite sort_all_arr. apply vperm_arr. induction IH; cbn [map]; constructor; auto.
+  - rewrite sort_all_obj. apply vperm_obj. exists (map_vals sort_all m). split.
+    + apply Permutation_sym. apply sort_by_key_perm.
+    + unfold map_vals. induction IH as [|[k x] m H IH' IH2]; cbn [map]; constructor; auto. split; auto.
+Qed.
+
+(* the state reached by a history is a well-formed object as soon as the stored values are *)
+Lemma keys_ok_of_inv : forall po (m : mapstate), NoDup (keys m) -> (po = false -> ascending (keys m)) -> keys_ok po (keys m).
+Proof. intros po m ND A. destruct po; cbn; auto. Qed.
+
+Print Assumptions veq_refl.
+Print Assumptions veq_sym.
+Print Assumptions veq_trans_true.
+Print Assumptions veq_hash.
+Print Assumptions vperm_veq.
+Print Assumptions eq_order_free.
+Print Assumptions sort_all_objects_spec.
+Print Assumptions sort_all_vperm.
